@@ -164,6 +164,9 @@ func runC05(c *eng.Ctx) {
 		cls := r.Results[0].Class
 		var fs []Finding
 		feat := cycleFeature(m)
+		if s.RebuildAfter > 0 {
+			feat += ":after-an-earlier-build-of-the-collection"
+		}
 		switch {
 		case m.Cyclic && r.Built:
 			fs = append(fs, Finding{"cycle-accepted", feat, "Build succeeded although the registered services contain a dependency cycle: " + describeCycle(m)})
@@ -213,6 +216,25 @@ func runC05(c *eng.Ctx) {
 	}
 	exec = func(idx int, s *Spec, m *Model, kind string) {
 		cr.guard(idx, func() string { return "spec:\n  " + strings.Join(s.Lines(), "\n  ") }, func() { execInner(idx, s, m, kind) })
+		// the same cyclic set reached in two steps: the longest buildable prefix is built (and used)
+		// first, the registrations that close the cycle follow, and the Build under observation comes
+		// last - "exactly when the registered services contain a cycle" is about the final set,
+		// whatever an earlier Build of the collection concluded
+		if m.Cyclic && s.RebuildAfter == 0 {
+			for k := len(s.Regs) - 1; k >= 1; k-- {
+				if NewModel(&Spec{Regs: s.Regs[:k]}).Class != ClsOK {
+					continue
+				}
+				s2 := &Spec{Regs: s.Regs, RebuildAfter: k}
+				m2 := NewModel(s2)
+				if !m2.Cyclic {
+					panic("harness: the model of a spec changed with RebuildAfter")
+				}
+				c.R.Count("cyclic_sets_built_before_the_cycle_was_closed", 1)
+				cr.guard(idx, func() string { return "spec:\n  " + strings.Join(s2.Lines(), "\n  ") }, func() { execInner(idx, s2, m2, kind+"+built-before-the-cycle-was-closed") })
+				break
+			}
+		}
 	}
 	// directed witnesses
 	directed := []*Spec{
